@@ -7,7 +7,7 @@ generate(kinds, workdir) -> ({virtual path: real file}, notes)
 import os, re, shutil
 
 ROOT = os.path.dirname(os.path.dirname(os.path.abspath(__file__)))
-REPO = '/repo'
+REPO = os.environ.get('VERIF_REPO', '/repo')
 
 
 class OverlayError(Exception):
